@@ -20,12 +20,9 @@ pub fn expand(input: &DeriveInput, trait_name: &'static str) -> Result<TokenStre
 
     let mut tokens = TokenStream::new();
 
-    // `&` binds tighter than `+`, so a trait object with several bounds has to be parenthesized
-    // before a reference to it can be spelled.
-    let field_type = match field_type {
-        syn::Type::TraitObject(obj) if obj.bounds.len() > 1 => quote! { (#field_type) },
-        _ => quote! { #field_type },
-    };
+    // A trait object keeps the meaning it has in the field only as an argument (and `&` binds
+    // tighter than the `+` of several bounds).
+    let field_type = crate::utils::behind_reference(field_type);
     // `Self` in the field type, or in the type's own bounds, means the deriving type, not a
     // reference to it.
     let (_, self_ty_generics, _) = input.generics.split_for_impl();
